@@ -28,6 +28,8 @@ type discCase struct {
 	Fixed     bool `json:"fixed_bind_port"`
 	Stream    bool `json:"stream"` // replies keep coming across the deadline
 	StaggerMs int  `json:"stagger_ms"`
+	// Wildcard: the second client binds 0.0.0.0:P (or the IPv4-mapped form of 127.0.0.1) instead of 127.0.0.1:P - the same port
+	Wildcard int `json:"wildcard,omitempty"`
 }
 
 func runDiscovery(c discCase, scale int) *rp.Fail {
@@ -82,7 +84,11 @@ func runDiscovery(c discCase, scale int) *rp.Fail {
 		GetDevices() ([]types.Device, error)
 	}, c.Clients)
 	for i := range clients {
-		clients[i] = hook.Real(cfg)
+		ci := cfg
+		if i == 1 && c.Wildcard == 1 {
+			ci.BindIP = [4]byte{0, 0, 0, 0}
+		}
+		clients[i] = hook.Real(ci)
 	}
 	type result struct {
 		list []types.Device
@@ -171,5 +177,5 @@ func checkDiscovery(c discCase) *rp.Fail {
 
 func genDiscovery(t *rapid.T) discCase {
 	return discCase{Callers: rapid.IntRange(2, 5).Draw(t, "callers"), Clients: rapid.IntRange(1, 2).Draw(t, "clients"), Fixed: rapid.Bool().Draw(t, "fixed"), Stream: rapid.Bool().Draw(t, "stream"),
-		StaggerMs: rapid.SampledFrom([]int{0, 0, 20, 75, 140}).Draw(t, "stagger")}
+		StaggerMs: rapid.SampledFrom([]int{0, 0, 20, 75, 140}).Draw(t, "stagger"), Wildcard: rapid.IntRange(0, 1).Draw(t, "wildcard")}
 }
